@@ -84,6 +84,10 @@ func badTx(kind string) *blockchain.Transaction {
 		tx.Module = "ver if!"
 	case "command":
 		tx.Command = "ru-n"
+	case "module-unicode": // letters and digits outside ASCII are not alphanumeric in the protocol's sense (LIP-0068: [a-zA-Z0-9])
+		tx.Module = []string{"tok\u00e9n", "tok\u0435n", "token\uff11", "tok\u00aan"}[int(tx.Nonce+uint64(len(tx.Params)))%4]
+	case "command-unicode":
+		tx.Command = []string{"tr\u00e4nsfer", "transf\u0435r", "transfer\u0661"}[int(tx.Nonce)%3]
 	case "pubkey":
 		tx.SenderPublicKey = tx.SenderPublicKey[:31]
 	case "siglen":
@@ -472,7 +476,7 @@ func ops() []op {
 			return resigned(b, c.owner), true
 		})
 	}
-	for _, kind := range []string{"module", "command", "pubkey", "siglen", "nosig", "params", "emptysig", "emptysig-second", "siglen65", "pubkey33"} {
+	for _, kind := range []string{"module", "command", "pubkey", "siglen", "nosig", "params", "emptysig", "emptysig-second", "siglen65", "pubkey33", "module-unicode", "command-unicode"} {
 		kind := kind
 		add("tx-statically-invalid:"+kind, true, func(c *mctx) (*blockchain.Block, bool) {
 			b := c.clone()
@@ -965,7 +969,7 @@ func regress(t *testing.T, opName string) {
 }
 
 func TestRegressTxStaticValidation(t *testing.T) {
-	for _, k := range []string{"module", "command", "pubkey", "siglen", "nosig", "params", "emptysig", "emptysig-second", "siglen65", "pubkey33"} {
+	for _, k := range []string{"module", "command", "pubkey", "siglen", "nosig", "params", "emptysig", "emptysig-second", "siglen65", "pubkey33", "module-unicode", "command-unicode"} {
 		regress(t, "tx-statically-invalid:"+k)
 	}
 }
